@@ -817,13 +817,17 @@ def _replay_swap(v):
                 rand = staticmethod(lambda: u)
 
             real_np = rt.np
+            real_acc = rt.chain_swap_acceptance
             shim = type("NPShim", (), {"__getattr__": lambda s, n: getattr(real_np, n)})()
             shim.random = R
             rt.np = shim
+            # the dispatcher of chain_swap_acceptance cannot be compiled while `np` is the shim: run its Python body
+            rt.chain_swap_acceptance = getattr(real_acc, "py_func", real_acc)
             a_i, a_j = gi.copy(), gj.copy()
             ri, rj_ = rt.chain_swap_step.py_func(a_i, math.log(Li), Ti, a_j, math.log(Lj), Tj, lu, inbreeding=F)
         finally:
             rt.np = real_np
+            rt.chain_swap_acceptance = real_acc
         pi_ = rp.log_genotype_prior(dosage_of(gi).astype(rnp.int8), lu, F)
         pj_ = rp.log_genotype_prior(dosage_of(gj).astype(rnp.int8), lu, F)
         A = rt.chain_swap_acceptance(math.log(Li), pi_, Ti, math.log(Lj), pj_, Tj)
